@@ -2,7 +2,7 @@ import SqlObjVerif.Model.Tx
 import SqlObjVerif.Model.DrvUtil
 /-! Driver for C07 (stateful).  Requests:
     `init <0|1>` | `create <P|T> k v0 v1` | `get <P|T> k <0|1>` | `read <P|T> j c` | `set <P|T> j c v` |
-    `destroy <P|T> j` | `expire <P|T> j` | `select <P|T> cls` | `drop <P|T> j` | `weaken <P|T> k` | `purge <P|T>` |
+    `destroy <P|T> j` | `expire <P|T> j` | `select <P|T> cls` | `drop <P|T> j` | `weaken <P|T> k` | `purge <P|T> cls` |
     `commit <0|1>` | `rollback` | `begin` | `dump`.
     `dump` answers the committed rows, the transaction's view (or `obsolete`), and the cached values of the held,
     not destroyed instances of both sides. -/
@@ -71,9 +71,9 @@ def parseOp (ws : List String) : Option Op :=
   | ["weaken", sd, k] => do
     let sd ← side? sd; let k ← k.toNat?
     pure (.weaken sd k)
-  | ["purge", sd] => do
-    let sd ← side? sd
-    pure (.purge sd)
+  | ["purge", sd, cls] => do
+    let sd ← side? sd; let cls ← cls.toNat?
+    pure (.purge sd cls)
   | ["commit", b] => some (.commit (b == "1"))
   | ["rollback"] => some .rollback
   | ["begin"] => some .begin
